@@ -135,6 +135,8 @@ class Analysis:
         self.pending = {}               # callsite id -> info for Ok-summaries
         self.sw_facts = {}              # (bi) -> description of branch facts (for reports)
         self.types = body.prog.types[body.crate]
+        self.type_invs = {}             # struct path -> [(int field, slice field)]: `field <= len(slice field)` assumed at entry (A11)
+        self.struct_builds = []         # (struct path, field names, field values, state) at every construction of a workspace struct
 
     # ------------------------------------------------------------------ symbols
     def sym(self, name, rng=None):
@@ -391,6 +393,8 @@ class Analysis:
                     return ("rangefrom", self.as_lin(vals[0]))
                 if short == "RangeFull":
                     return ("rangefull",)
+                if self.final and rv["adt"].startswith(("simple_dns", "simple_mdns", "fx_")) and rv.get("fields"):
+                    self.struct_builds.append((rv["adt"], tuple(rv["fields"]), tuple(vals), st.copy(), [self.op_ty(o) for o in rv["ops"]]))
                 return ("adt", short, rv["vn"], tuple(vals), tuple(rv["fields"]))
             if ak == "tuple":
                 return ("tuple", tuple(vals))
@@ -2010,8 +2014,30 @@ class Analyzer(Analysis):
                     st.store["(*%s)" % key] = ("lin", self.sym("(*%s)@entry" % key, int_range(inner)))
                 else:
                     st.store[key] = ("ref", "(*%s)" % key, t["mut"])
+                    if t["mut"] and inner["k"] == "adt":
+                        # integer fields of a struct reached through `&mut self`: given their entry value now, so that a loop
+                        # which advances one (`self.current += 1`) has a loop-carried value at its head
+                        adt = b.prog.adts.get(inner.get("name", ""))
+                        if adt is not None and adt.get("kind") == "struct" and adt.get("crate") in ("simple_dns", "simple_mdns") \
+                                and len(adt["variants"]) == 1:
+                            tt = b.prog.types.get(adt["crate"], [])
+                            for f in adt["variants"][0]["fields"]:
+                                ft = tt[f["t"]] if isinstance(f.get("t"), int) and f["t"] < len(tt) else None
+                                if ft is not None and ft["k"] == "int":
+                                    fk = "(*%s).%s" % (key, f["name"])
+                                    st.store[fk] = ("lin", self.sym(fk + "@entry", int_range(ft)))
                     if t["mut"] and inner["k"] == "param":
                         st.store["wpos:(*%s)" % key] = ("lin", self.sym("wpos(*%s)@entry" % key, (0, USIZE_HI)))
+                    if inner["k"] == "adt" and self.type_invs.get(inner.get("name", "")):
+                        # validated invariants of a private struct (A11): `int field <= len(slice field)`
+                        for (f_int, f_sl) in self.type_invs[inner["name"]]:
+                            fk = "(*%s).%s" % (key, f_int)
+                            if fk not in st.store:
+                                st.store[fk] = ("lin", self.sym(fk + "@entry", (0, USIZE_HI)))
+                            gk = "(*%s).%s" % (key, f_sl)
+                            ln = self.length_of(st, gk)
+                            if ln is not None and st.store[fk][0] == "lin":
+                                st.facts.add(st.store[fk][1] - ln)
         return st
 
     def rpo(self):
